@@ -1,78 +1,115 @@
 """Reference semantics of content expressions: own tokenizer + parser, Brzozowski derivatives.
 
-Regex values are hash-consed tuples built only through the smart constructors, so that
+Regex values are hash-consed `Rx` objects built only through the smart constructors, so that
+  * two values are the same object  <=>  they are structurally equal (after ACI-normalising alt),
   * a value is EMPTY  <=>  its language is empty (structural),
-  * derivatives of one expression form a finite set (alt is flattened, sorted, de-duplicated).
+  * derivatives of one expression form a finite set.
 """
 from __future__ import annotations
 
-import functools
 import re
-
-EMPTY = ("empty",)
-EPS = ("eps",)
 
 
 class ParseErr(Exception):
     pass
 
 
-def sym(a: str) -> tuple:
-    return ("sym", a)
+class Rx:
+    __slots__ = ("kind", "arg", "uid", "_nullable", "_first", "_deriv")
+
+    def __init__(self, kind: str, arg: object, uid: int) -> None:
+        self.kind = kind
+        self.arg = arg
+        self.uid = uid
+        self._nullable: bool | None = None
+        self._first: frozenset | None = None
+        self._deriv: dict[str, "Rx"] = {}
+
+    def __repr__(self) -> str:
+        k = self.kind
+        if k in ("empty", "eps"):
+            return k
+        if k == "sym":
+            return str(self.arg)
+        if k == "seq":
+            return "(" + " ".join(repr(x) for x in self.arg) + ")"  # type: ignore[union-attr]
+        if k == "alt":
+            return "(" + " | ".join(repr(x) for x in self.arg) + ")"  # type: ignore[union-attr]
+        return repr(self.arg) + "*"
+
+    def __lt__(self, other: "Rx") -> bool:
+        return self.uid < other.uid
 
 
-def seq(a: tuple, b: tuple) -> tuple:
-    if a == EMPTY or b == EMPTY:
+_table: dict[tuple, Rx] = {}
+
+
+def _mk(kind: str, arg: object, key: tuple) -> Rx:
+    r = _table.get(key)
+    if r is None:
+        r = Rx(kind, arg, len(_table))
+        _table[key] = r
+    return r
+
+
+EMPTY = _mk("empty", None, ("empty",))
+EPS = _mk("eps", None, ("eps",))
+
+
+def sym(a: str) -> Rx:
+    return _mk("sym", a, ("sym", a))
+
+
+def seq(a: Rx, b: Rx) -> Rx:
+    if a is EMPTY or b is EMPTY:
         return EMPTY
-    if a == EPS:
+    if a is EPS:
         return b
-    if b == EPS:
+    if b is EPS:
         return a
-    if a[0] == "seq":  # right-nest for canonical form
-        return seq(a[1], seq(a[2], b))
-    return ("seq", a, b)
+    if a.kind == "seq":  # right-nest for a canonical form
+        x, y = a.arg  # type: ignore[misc]
+        return seq(x, seq(y, b))
+    return _mk("seq", (a, b), ("seq", a.uid, b.uid))
 
 
-def alt(a: tuple, b: tuple) -> tuple:
-    if a == EMPTY:
+def alt(a: Rx, b: Rx) -> Rx:
+    if a is EMPTY:
         return b
-    if b == EMPTY:
+    if b is EMPTY:
         return a
-    if a == b:
+    if a is b:
         return a
-    items = set()
-
-    def coll(x: tuple) -> None:
-        if x[0] == "alt":
-            for y in x[1]:
-                items.add(y)
+    items: dict[int, Rx] = {}
+    for x in (a, b):
+        if x.kind == "alt":
+            for y in x.arg:  # type: ignore[union-attr]
+                items[y.uid] = y
         else:
-            items.add(x)
-
-    coll(a)
-    coll(b)
+            items[x.uid] = x
     if len(items) == 1:
-        return next(iter(items))
-    return ("alt", tuple(sorted(items, key=repr)))
+        return next(iter(items.values()))
+    uids = tuple(sorted(items))
+    return _mk("alt", tuple(items[u] for u in uids), ("alt", uids))
 
 
-def star(a: tuple) -> tuple:
-    if a in (EMPTY, EPS):
+def star(a: Rx) -> Rx:
+    if a is EMPTY or a is EPS:
         return EPS
-    if a[0] == "star":
+    if a.kind == "star":
         return a
-    return ("star", a)
+    return _mk("star", a, ("star", a.uid))
 
 
-def opt(a: tuple) -> tuple:
+def opt(a: Rx) -> Rx:
     return alt(EPS, a)
 
 
-def plus(a: tuple) -> tuple:
+def plus(a: Rx) -> Rx:
     return seq(a, star(a))
 
 
-def rng(a: tuple, lo: int, hi: int) -> tuple:
+def rng(a: Rx, lo: int, hi: int) -> Rx:
     """a{lo,hi}; hi == -1 means unbounded."""
     r = EPS
     if hi == -1:
@@ -85,97 +122,94 @@ def rng(a: tuple, lo: int, hi: int) -> tuple:
     return r
 
 
-@functools.lru_cache(maxsize=None)
-def nullable(r: tuple) -> bool:
-    k = r[0]
-    if k in ("eps", "star"):
-        return True
-    if k in ("empty", "sym"):
-        return False
-    if k == "seq":
-        return nullable(r[1]) and nullable(r[2])
-    return any(nullable(x) for x in r[1])
+def nullable(r: Rx) -> bool:
+    v = r._nullable
+    if v is None:
+        k = r.kind
+        if k in ("eps", "star"):
+            v = True
+        elif k in ("empty", "sym"):
+            v = False
+        elif k == "seq":
+            v = nullable(r.arg[0]) and nullable(r.arg[1])  # type: ignore[index]
+        else:
+            v = any(nullable(x) for x in r.arg)  # type: ignore[union-attr]
+        r._nullable = v
+    return v
 
 
-@functools.lru_cache(maxsize=None)
-def deriv(r: tuple, a: str) -> tuple:
-    k = r[0]
-    if k in ("empty", "eps"):
-        return EMPTY
-    if k == "sym":
-        return EPS if r[1] == a else EMPTY
-    if k == "seq":
-        d = seq(deriv(r[1], a), r[2])
-        return alt(d, deriv(r[2], a)) if nullable(r[1]) else d
-    if k == "alt":
-        out = EMPTY
-        for x in r[1]:
-            out = alt(out, deriv(x, a))
-        return out
-    return seq(deriv(r[1], a), r)
+def deriv(r: Rx, a: str) -> Rx:
+    d = r._deriv.get(a)
+    if d is None:
+        k = r.kind
+        if k in ("empty", "eps"):
+            d = EMPTY
+        elif k == "sym":
+            d = EPS if r.arg == a else EMPTY
+        elif k == "seq":
+            x, y = r.arg  # type: ignore[misc]
+            d = seq(deriv(x, a), y)
+            if nullable(x):
+                d = alt(d, deriv(y, a))
+        elif k == "alt":
+            d = EMPTY
+            for x in r.arg:  # type: ignore[union-attr]
+                d = alt(d, deriv(x, a))
+        else:
+            d = seq(deriv(r.arg, a), r)  # type: ignore[arg-type]
+        r._deriv[a] = d
+    return d
 
 
-@functools.lru_cache(maxsize=None)
-def first(r: tuple) -> frozenset:
-    k = r[0]
-    if k in ("empty", "eps"):
-        return frozenset()
-    if k == "sym":
-        return frozenset([r[1]])
-    if k == "seq":
-        return first(r[1]) | first(r[2]) if nullable(r[1]) else first(r[1])
-    if k == "alt":
-        out: frozenset = frozenset()
-        for x in r[1]:
-            out |= first(x)
-        return out
-    return first(r[1])
+def first(r: Rx) -> frozenset:
+    v = r._first
+    if v is None:
+        k = r.kind
+        if k in ("empty", "eps"):
+            v = frozenset()
+        elif k == "sym":
+            v = frozenset([r.arg])
+        elif k == "seq":
+            x, y = r.arg  # type: ignore[misc]
+            v = first(x) | first(y) if nullable(x) else first(x)
+        elif k == "alt":
+            v = frozenset()
+            for x in r.arg:  # type: ignore[union-attr]
+                v |= first(x)
+        else:
+            v = first(r.arg)  # type: ignore[arg-type]
+        r._first = v
+    return v
 
 
-def alphabet(r: tuple) -> frozenset:
-    k = r[0]
-    if k in ("empty", "eps"):
-        return frozenset()
-    if k == "sym":
-        return frozenset([r[1]])
-    if k == "seq":
-        return alphabet(r[1]) | alphabet(r[2])
-    if k == "alt":
-        out: frozenset = frozenset()
-        for x in r[1]:
-            out |= alphabet(x)
-        return out
-    return alphabet(r[1])
-
-
-def run(r: tuple, seq_: list[str]) -> tuple:
+def run(r: Rx, seq_: list[str]) -> Rx:
     for a in seq_:
         r = deriv(r, a)
-        if r == EMPTY:
+        if r is EMPTY:
             return EMPTY
     return r
 
 
-def accepts(r: tuple, seq_: list[str]) -> bool:
+def accepts(r: Rx, seq_: list[str]) -> bool:
     return nullable(run(r, seq_))
 
 
-def live(r: tuple) -> bool:
-    return r != EMPTY
+def live(r: Rx) -> bool:
+    return r is not EMPTY
 
 
-def states(r: tuple, alpha: list[str] | None = None) -> list[tuple]:
+def states(r: Rx, limit: int = 100000) -> list[Rx]:
     """All non-EMPTY derivative states reachable from r (BFS order)."""
-    seen = {r}
+    seen = {r.uid}
     order = [r]
     i = 0
-    while i < len(order):
+    while i < len(order) and len(order) < limit:
         cur = order[i]
         i += 1
-        for a in sorted(first(cur)) if alpha is None else alpha:
+        for a in sorted(first(cur)):
             d = deriv(cur, a)
-            if d != EMPTY and d not in seen:
-                seen.add(d)
+            if d is not EMPTY and d.uid not in seen:
+                seen.add(d.uid)
                 order.append(d)
     return order
 
@@ -204,13 +238,13 @@ class _P:
             return True
         return False
 
-    def expr(self) -> tuple:
+    def expr(self) -> Rx:
         r = self.seq_()
         while self.eat("|"):
             r = alt(r, self.seq_())
         return r
 
-    def seq_(self) -> tuple:
+    def seq_(self) -> Rx:
         parts = [self.sub()]
         while self.peek() is not None and self.peek() not in (")", "|"):
             parts.append(self.sub())
@@ -219,7 +253,7 @@ class _P:
             r = seq(p, r)
         return r
 
-    def sub(self) -> tuple:
+    def sub(self) -> Rx:
         r = self.atom()
         while True:
             if self.eat("+"):
@@ -248,7 +282,7 @@ class _P:
         self.i += 1
         return int(t)
 
-    def atom(self) -> tuple:
+    def atom(self) -> Rx:
         if self.eat("("):
             r = self.expr()
             if not self.eat(")"):
@@ -265,7 +299,7 @@ class _P:
         return r
 
 
-def parse(src: str, resolve) -> tuple:  # noqa: ANN001
+def parse(src: str, resolve) -> Rx:  # noqa: ANN001
     """resolve(name) -> list of type names (raises ParseErr when unknown)."""
     toks = tokenize(src)
     if not toks:
@@ -275,3 +309,28 @@ def parse(src: str, resolve) -> tuple:  # noqa: ANN001
     if p.peek() is not None:
         raise ParseErr("trailing text")
     return r
+
+
+def table_size() -> int:
+    return len(_table)
+
+
+_reset_hooks: list = []
+
+
+def on_reset(fn) -> None:  # noqa: ANN001
+    _reset_hooks.append(fn)
+
+
+def maybe_reset(limit: int = 1_500_000) -> None:
+    """Between cases: drop the hash-cons table (and every cache holding Rx values) when it grows large."""
+    global EMPTY, EPS
+    if len(_table) <= limit:
+        return
+    keep = {("empty",): EMPTY, ("eps",): EPS}
+    _table.clear()
+    _table.update(keep)
+    for r in (EMPTY, EPS):
+        r._deriv.clear()
+    for fn in _reset_hooks:
+        fn()
